@@ -10,7 +10,7 @@ transport cuts the inbound byte stream into `read()` results.
 * `readLoop sched r stream` — the loop the machine runs (`doWaitRead` / `doConnRead` in `Ops.lean`
   through `Session.window` / `commit` / `takePkt`), with the transport's choices given by `sched`.
 * `readLoop_eq_frames` — the loop computes `frames`, whatever the schedule.
-* `Reach` — the same loop as a relation (every choice of every read); safety facts for all reachable
+* `RdReach` — the same loop as a relation (every choice of every read); safety facts for all reachable
   reader states.
 * `stepWrites` / `localWrites` — the two write loops over a list of partial acceptances.
 -/
@@ -521,7 +521,7 @@ structure RInv (r : Reader) (s : Bytes) : Prop where
     r.data = [] ∨ ∃ d y, r.data = d ++ [y] ∧ fixedHeader d = .incomplete
 
 /-- After `receive_buffer` offered a window of `n` bytes. -/
-structure WInv (r1 : Reader) (s : Bytes) (n : Nat) : Prop where
+structure RdWInv (r1 : Reader) (s : Bytes) (n : Nat) : Prop where
   fits : r1.data.length ≤ r1.cap
   known : ∀ l, r1.packetLength = some l →
     (∃ hl, fixedHeader s = .complete hl l) ∧ l ≤ r1.cap ∧ r1.data.length ≤ l ∧
@@ -579,7 +579,7 @@ theorem packetAvailable_false_of_none {r : Reader} (hp : r.packetLength = none) 
 /-- A window offered to a reader that satisfies the invariant. -/
 theorem window_some {r r1 : Reader} {s u : Bytes} {n : Nat} (h : RInv r s) (hs : s = r.data ++ u)
     (hw : r.receiveWindow = some (r1, n)) :
-    WInv r1 s n ∧ r1.data = r.data ∧ r1.cap = r.cap ∧ r1.last = r.last := by
+    RdWInv r1 s n ∧ r1.data = r.data ∧ r1.cap = r.cap ∧ r1.last = r.last := by
   cases hp : r.packetLength with
   | some l =>
     obtain ⟨hh, hc, hd⟩ := h.known l hp
@@ -683,7 +683,7 @@ theorem window_none {r : Reader} {s u : Bytes} (h : RInv r s) (hs : s = r.data +
           rw [if_pos (by omega), htake _ (by omega)]
 
 /-- An empty window means a complete packet is held. -/
-theorem WInv.zero_available {r1 : Reader} {s : Bytes} (h : WInv r1 s 0) :
+theorem RdWInv.zero_available {r1 : Reader} {s : Bytes} (h : RdWInv r1 s 0) :
     r1.packetAvailable = true ∧ r1.data ≠ [] := by
   cases hp : r1.packetLength with
   | none => have := (h.unknown hp).2.2; omega
@@ -695,7 +695,7 @@ theorem WInv.zero_available {r1 : Reader} {s : Bytes} (h : WInv r1 s 0) :
     · intro hd; rw [hd] at hn; simp at hn; omega
 
 /-- The stream ends while a non-empty window is open: the specification says `exhausted`. -/
-theorem WInv.stream_end {r1 : Reader} {n : Nat} (h : WInv r1 r1.data n) (hn : n ≠ 0) :
+theorem RdWInv.stream_end {r1 : Reader} {n : Nat} (h : RdWInv r1 r1.data n) (hn : n ≠ 0) :
     frame1 r1.cap r1.data = .stop (.exhausted r1.data) := by
   unfold frame1
   cases hp : r1.packetLength with
@@ -709,7 +709,7 @@ theorem WInv.stream_end {r1 : Reader} {n : Nat} (h : WInv r1 r1.data n) (hn : n 
     rw [if_neg (by omega), if_pos (by omega)]
 
 /-- Committing between 1 and `n` delivered bytes re-establishes the loop-head invariant. -/
-theorem WInv.commit {r1 : Reader} {s u : Bytes} {n k : Nat} (h : WInv r1 s n)
+theorem RdWInv.commit {r1 : Reader} {s u : Bytes} {n k : Nat} (h : RdWInv r1 s n)
     (hs : s = r1.data ++ u) (hk1 : 1 ≤ k) (hkn : k ≤ n) (hku : k ≤ u.length) :
     RInv (r1.commit (u.take k)) s := by
   have hlen : (u.take k).length = k := by simp; omega
@@ -987,17 +987,17 @@ theorem frames_packets (cap : Nat) (s : Bytes) : ∀ pkt ∈ (frames cap s).pack
 
 /-- Reader states (with the bytes not read yet) reachable from `r0` on `stream`, for every choice
 of every read: the transport may deliver any `k` with `1 ≤ k ≤ min window remaining`. -/
-inductive Reach (r0 : Reader) (stream : Bytes) : Reader → Bytes → Prop where
-  | init : Reach r0 stream r0 stream
-  | take {r u} : Reach r0 stream r u → r.packetAvailable = true →
-      Reach r0 stream r.takePacket.1 u
-  | window0 {r r1 u} : Reach r0 stream r u → r.packetAvailable = false →
-      r.receiveWindow = some (r1, 0) → Reach r0 stream r1 u
-  | read {r r1 u n k} : Reach r0 stream r u → r.packetAvailable = false →
+inductive RdReach (r0 : Reader) (stream : Bytes) : Reader → Bytes → Prop where
+  | init : RdReach r0 stream r0 stream
+  | take {r u} : RdReach r0 stream r u → r.packetAvailable = true →
+      RdReach r0 stream r.takePacket.1 u
+  | window0 {r r1 u} : RdReach r0 stream r u → r.packetAvailable = false →
+      r.receiveWindow = some (r1, 0) → RdReach r0 stream r1 u
+  | read {r r1 u n k} : RdReach r0 stream r u → r.packetAvailable = false →
       r.receiveWindow = some (r1, n) → 1 ≤ k → k ≤ n → k ≤ u.length →
-      Reach r0 stream (r1.commit (u.take k)) (u.drop k)
+      RdReach r0 stream (r1.commit (u.take k)) (u.drop k)
 
-theorem WInv.toRInv {r1 : Reader} {s : Bytes} (h : WInv r1 s 0) : RInv r1 s := by
+theorem RdWInv.toRInv {r1 : Reader} {s : Bytes} (h : RdWInv r1 s 0) : RInv r1 s := by
   obtain ⟨ha1, _⟩ := h.zero_available
   refine ⟨h.fits, ?_, ?_⟩
   · intro l hl
@@ -1006,7 +1006,7 @@ theorem WInv.toRInv {r1 : Reader} {s : Bytes} (h : WInv r1 s 0) : RInv r1 s := b
   · intro hp; simp [Reader.packetAvailable, hp] at ha1
 
 theorem reach_inv {r0 : Reader} {stream : Bytes} (hd : r0.data = []) (hp : r0.packetLength = none)
-    {r : Reader} {u : Bytes} (h : Reach r0 stream r u) :
+    {r : Reader} {u : Bytes} (h : RdReach r0 stream r u) :
     RInv r (r.data ++ u) ∧ r.cap = r0.cap ∧ ∃ done, done ++ r.data ++ u = stream := by
   induction h with
   | init => exact ⟨RInv_fresh _ _ hd hp, rfl, [], by simp [hd]⟩
@@ -1067,7 +1067,7 @@ theorem receiveWindow_zero (r r1 : Reader) (h : r.receiveWindow = some (r1, 0)) 
 a window never reaches past the buffer, nor past the end of the packet being assembled (so no
 byte of the next packet is ever consumed), and is empty only if a complete packet is held. -/
 theorem reach_safe {r0 : Reader} {stream : Bytes} (hd : r0.data = []) (hp : r0.packetLength = none)
-    {r : Reader} {u : Bytes} (h : Reach r0 stream r u) :
+    {r : Reader} {u : Bytes} (h : RdReach r0 stream r u) :
     r.data.length ≤ r.cap ∧
     ∀ r1 n, r.receiveWindow = some (r1, n) →
       r.data.length + n ≤ r.cap ∧
